@@ -1053,7 +1053,7 @@ def run(ctx):
         for fname, blob in corpus_specs():
             spec = blob["spec"]
             run_api(ctx, ctx.rng("corpus", fname), spec, workdir, ctx.n(6, 12), "corpus:" + fname)
-        napis = ctx.n(8, 180)
+        napis = ctx.n(8, 130)
         nseeds = ctx.n(5, 13)
         chunk = ctx.n(4, 6)
         items = []
